@@ -1,6 +1,6 @@
 (* C12 - proofs about RV/RVModel.v: refinement of std::vector (lists), invariant, capacity, manager. *)
 From Coq Require Import ZArith List Bool Arith Lia.
-Require Import Verif.Gen.Gen_reusable_vector Verif.RV.RVModel Verif.RV.RVLoops.
+Require Import Verif.Gen.Gen_reusable_vector Verif.RV.RVModel Verif.RV.RVLoops Verif.RV.RVOps.
 Import ListNotations.
 
 Ltac cases := repeat (match goal with
@@ -9,175 +9,436 @@ Ltac cases := repeat (match goal with
   | |- context [Nat.eqb ?a ?b] => destruct (Nat.eqb_spec a b)
   end; simpl; try lia); auto.
 
-(* ---- lists ------------------------------------------------------------------------------------------ *)
-Lemma nth_firstn_lt (l : list Z) : forall n j, j < n -> nth j (firstn n l) 0%Z = nth j l 0%Z.
-Proof. induction l; intros [|n] [|j] H; simpl; auto; try lia. apply IHl; lia. Qed.
-Lemma nth_skipn_add (l : list Z) : forall n j, nth j (skipn n l) 0%Z = nth (n + j) l 0%Z.
-Proof. induction l; intros [|n] j; simpl; auto. destruct j; auto. Qed.
-
-Lemma nth_splice (l vs : list Z) i k j : i <= length l ->
-  nth j (firstn i l ++ vs ++ skipn k l) 0%Z =
-  if j <? i then nth j l 0%Z else if j <? i + length vs then nth (j - i) vs 0%Z else nth (k + (j - i - length vs)) l 0%Z.
-Proof.
-  intros Hi. assert (L : length (firstn i l) = i) by (rewrite firstn_length; lia).
-  destruct (Nat.ltb_spec j i).
-  - rewrite app_nth1 by lia. apply nth_firstn_lt; auto.
-  - rewrite app_nth2 by lia. rewrite L. destruct (Nat.ltb_spec j (i + length vs)).
-    + rewrite app_nth1 by lia. reflexivity.
-    + rewrite app_nth2 by lia. rewrite nth_skipn_add. reflexivity.
-Qed.
-
-Lemma length_splice (l vs : list Z) i k : i <= length l ->
-  length (firstn i l ++ vs ++ skipn k l) = i + length vs + (length l - k).
-Proof. intros. rewrite !app_length, firstn_length, skipn_length. lia. Qed.
-
-Lemma abs_eq_spec s' (l' : list Z) : length l' = size s' ->
-  (forall j, j < size s' -> valof (cells s' j) = nth j l' 0%Z) -> abs s' = l'.
-Proof.
-  intros H1 H2. apply list_eq_nth. - rewrite abs_length; auto.
-  - intros j Hj. rewrite abs_length in Hj. rewrite abs_nth by auto. auto.
-Qed.
-
-Lemma nth_abs s j : j < size s -> nth j (abs s) 0%Z = valof (cells s j).
-Proof. apply abs_nth. Qed.
-
 Section Elem.
 Variable mva : Z -> Z -> Z.
 Variable mvc : Z -> Z.
 Variable smv : Z -> Z.
 
-Notation emplace_back := (RVModel.emplace_back).
 Notation prepare_for_insert := (RVModel.prepare_for_insert mva mvc smv).
 Notation insert_range := (RVModel.insert_range mva mvc smv).
 Notation emplace := (RVModel.emplace mva mvc smv).
 Notation erase := (RVModel.erase mva smv).
 Notation step := (RVModel.step mva mvc smv).
 Notation run := (RVModel.run mva mvc smv).
+Notation smv_id := (RVOps.smv_id smv).
 
-Definition smv_id : Prop := forall v, smv v = v.
-
-(* what every operation guarantees: invariant, contents, capacities never shrink, and no storage is taken
-   from the resource when the demand fits the capacity *)
-Definition opost (s s' : vec) (l' : list Z) (need : nat) : Prop :=
-  wf s' /\ abs s' = l' /\ cap s <= cap s' /\ csize s <= csize s' /\ need <= cap s' /\ size s' <= Nat.max (size s) need /\
-  (need <= cap s -> nalloc s' = nalloc s /\ cap s' = cap s).
-
-Lemma reserve_post s n : wf s -> opost s (reserve s n) (abs s) n.
+Lemma erase_post s first last : wf s -> first <= last -> last <= size s ->
+  opost s (erase s first last) (firstn first (abs s) ++ skipn last (abs s)) 0.
 Proof.
-  intros W. destruct (reserve_spec s n W) as (W' & S & C & K & P & A).
-  unfold opost. split; auto. split. { apply abs_ext; auto. }
-  repeat split; try lia.
+  intros W H1 H2. unfold RVModel.erase. destruct (Nat.eqb_spec first last) as [->|Hne].
+  - rewrite firstn_skipn. unfold opost. repeat apply conj; auto; lia.
+  - destruct W as [W1 W2 W3 W4 W5 W6].
+    destruct (erase_loop_spec mva smv (last - first)) with (k := size s - last) (i := last) (s := s)
+      as (F & C & N & P); try lia.
+    { intros p Hp. apply W4; lia. }
+    set (s1 := up_iter _ _ _ s) in *. destruct F as (F1 & F2 & F3 & F4 & F5).
+    rewrite b_erase_delta. unfold opost. cbn [size csize cap err nctor ndtor nalloc cells set_size].
+    repeat apply conj; try lia.
+    + constructor; cbn [size csize cap err nctor ndtor nalloc cells set_size]; try lia; try congruence.
+      * intros j Hj. destruct (P j) as (_ & Pb & _). apply Pb, W4. lia.
+      * intros j Hj. destruct (P j) as (_ & _ & Pc). rewrite Pc by lia. apply W5; lia.
+    + apply abs_eq_spec; cbn [size csize cap err nctor ndtor nalloc cells set_size].
+      { change (firstn first (abs s) ++ skipn last (abs s)) with (firstn first (abs s) ++ [] ++ skipn last (abs s)).
+        rewrite length_splice, abs_length by (rewrite abs_length; lia). simpl. lia. }
+      intros j Hj.
+      change (firstn first (abs s) ++ skipn last (abs s)) with (firstn first (abs s) ++ [] ++ skipn last (abs s)).
+      rewrite nth_splice by (rewrite abs_length; lia). simpl length.
+      destruct (P j) as (Pa & _ & Pc). cases.
+      * rewrite Pc by lia. rewrite nth_abs by lia. reflexivity.
+      * rewrite Pa by lia. rewrite nth_abs by lia. simpl. f_equal. f_equal. lia.
 Qed.
 
-(* the second half of emplace_back, with room for one more *)
-Lemma push_spec s v : wf s -> size s < cap s ->
-  let s' := if eb_reuse_cond (zz (csize s)) (zz (size s))
-            then set_size (assign s (size s) v) (S (size s))
-            else inc_csize (set_size (construct s (size s) v) (S (size s))) in
-  wf s' /\ abs s' = abs s ++ [v] /\ cap s' = cap s /\ csize s <= csize s' /\ nalloc s' = nalloc s /\ size s' = S (size s).
+Lemma resize_post s count v grow rend : wf s ->
+  (forall a b, grow (zz a) (zz b) = (a <? b)) -> (forall a b, nn (rend (zz a) (zz b)) = Nat.min a b) ->
+  opost s (resize_with s count v grow rend) (firstn count (abs s) ++ repeat v (count - length (abs s))) count.
 Proof.
-  intros W Hlt. destruct W as [W1 W2 W3 W4 W5 W6]. rewrite b_eb_reuse.
-  destruct (Nat.ltb_spec (size s) (csize s)); cbn zeta.
-  - rewrite assign_ok by (auto; lia). split; [|split].
-    + constructor; cbn; auto; try lia.
-      * intros j Hj. unfold setc. destruct (Nat.eqb_spec j (size s)); auto.
-      * intros j Hj. unfold setc. destruct (Nat.eqb_spec j (size s)); auto; lia.
-    + apply abs_eq_spec; cbn. { rewrite app_length, abs_length; simpl; lia. }
-      intros j Hj. unfold setc. destruct (Nat.eqb_spec j (size s)).
-      * subst. rewrite app_nth2 by (rewrite abs_length; lia). rewrite abs_length, Nat.sub_diag. reflexivity.
-      * rewrite app_nth1 by (rewrite abs_length; lia). rewrite nth_abs by lia. reflexivity.
-    + cbn. repeat split; lia.
-  - assert (size s = csize s) by lia.
-    rewrite construct_ok by (auto; try lia; apply W5; lia). split; [|split].
-    + constructor; cbn; auto; try lia.
-      * intros j Hj. unfold setc. destruct (Nat.eqb_spec j (size s)); auto. apply W4; lia.
-      * intros j Hj. unfold setc. destruct (Nat.eqb_spec j (size s)); auto; try lia. apply W5; lia.
-    + apply abs_eq_spec; cbn. { rewrite app_length, abs_length; simpl; lia. }
-      intros j Hj. unfold setc. destruct (Nat.eqb_spec j (size s)).
-      * subst. rewrite app_nth2 by (rewrite abs_length; lia). rewrite abs_length, Nat.sub_diag. reflexivity.
-      * rewrite app_nth1 by (rewrite abs_length; lia). rewrite nth_abs by lia. reflexivity.
-    + cbn. repeat split; lia.
-Qed.
-
-Lemma emplace_back_post s v : wf s -> opost s (emplace_back s v) (abs s ++ [v]) (S (size s)).
-Proof.
-  intros W. unfold RVModel.emplace_back. rewrite b_eb_grow_cond.
-  destruct (Nat.eqb_spec (size s) (cap s)) as [E|E].
-  - pose proof (b_eb_grow_arg (cap s)) as G.
-    destruct (reserve_spec s (nn (eb_grow_arg (zz (cap s)))) W) as (W' & S & C & K & P & A).
-    set (s1 := reserve s _) in *.
-    destruct (push_spec s1 v W') as (W2 & A2 & K2 & C2 & N2 & S2). { lia. }
-    unfold opost. split; auto. split. { rewrite A2. f_equal. apply abs_ext; auto. }
-    repeat split; try lia.
-  - assert (size s < cap s) by (destruct W; lia).
-    destruct (push_spec s v W) as (W2 & A2 & K2 & C2 & N2 & S2); auto.
-    unfold opost. split; auto. split; auto. repeat split; try lia.
-Qed.
-
-(* ---- prepare_for_insert -------------------------------------------------------------------------------- *)
-Lemma pfi_spec s index count : wf s -> index <= size s -> (1 <= count \/ smv_id) ->
-  let s' := fst (prepare_for_insert s index count) in
-  snd (prepare_for_insert s index count) = Nat.min (index + count) (csize s) /\
-  err s' = false /\ size s' = size s + count /\ cap s' = Nat.max (cap s) (size s + count) /\
-  (size s + count <= cap s -> nalloc s' = nalloc s) /\
-  csize s' = csize s + (size s + count - Nat.max (index + count) (csize s)) /\
-  nctor s' = ndtor s' + csize s' /\
-  (forall p, (p < index -> cells s' p = cells s p) /\
-             (index + count <= p < size s + count -> cells s' p = Con (valof (cells s (p - count)))) /\
-             (index <= p < index + count \/ size s + count <= p ->
-                if p <? csize s then isCon (cells s' p) else cells s' p = Raw)).
-Proof.
-  intros W Hi Hz. unfold RVModel.prepare_for_insert. bridge.
-  destruct (reserve_spec s (size s + count) W) as (W0 & S0 & C0 & K0 & P0 & A0).
-  set (s0 := reserve s (size s + count)) in *.
-  rewrite S0, C0. cbn [fst snd]. split; [reflexivity|].
-  set (me := Nat.max (index + count) (csize s)).
+  intros W Hg Hr. unfold resize_with.
+  destruct (reserve_spec s count W) as (W0 & S0 & C0 & K0 & P0 & A0).
+  set (s0 := reserve s count) in *. rewrite Hg, Hr, S0, C0, abs_length.
   destruct W as [W1 W2 W3 W4 W5 W6]. destruct W0 as [V1 V2 V3 V4 V5 V6].
-  destruct (Nat.eq_dec count 0) as [Z|NZ].
-  - (* zero elements: only self-moves *)
-    subst count. destruct Hz as [Hz|Hz]; [lia|].
-    replace (size s + 0 - me) with 0 by (unfold me; lia). cbn [down_iter].
-    destruct (loop2_self mva smv Hz (me - (index + 0)) me s0) as (F & C & N & P).
-    { unfold me; lia. } { lia. } { intros p Hp. apply V4. unfold me in *; lia. }
-    set (s2 := down_iter _ _ _ s0) in *. destruct F as (F1 & F2 & F3 & F4 & F5).
-    cbn [err size cap nalloc csize nctor ndtor cells set_size].
-    repeat apply conj; try lia; try congruence.
-    intros p; repeat apply conj; intros Hp.
-    + rewrite P, P0; auto.
-    + rewrite P, P0, Nat.sub_0_r. apply isCon_valof, W4; lia.
-    + rewrite P, P0. destruct (Nat.ltb_spec p (csize s)); [apply W4 | apply W5]; lia.
-  - assert (Hc : 1 <= count) by lia.
-    destruct (loop1_spec mvc count Hc (size s + count - me) (size s + count) s0) as (F & C & N & P).
-    { lia. } { unfold me; lia. } { unfold me; lia. }
-    { intros p Hp. apply V5. unfold me in *; lia. }
-    { intros p Hp. apply V4. unfold me in *; lia. }
-    set (s1 := down_iter _ _ _ s0) in *. destruct F as (F1 & F2 & F3 & F4 & F5).
-    assert (Q1 : forall p, p < me - count \/ (size s <= p /\ p < me) \/ size s + count <= p -> cells s1 p = cells s p).
-    { intros p Hp. rewrite P, P0. unfold me in *. cases. }
-    assert (Q2 : forall p, p < csize s -> isCon (cells s1 p)).
-    { intros p Hp. rewrite P. unfold me in *. cases. rewrite P0; auto. }
-    destruct (Nat.eq_dec (me - (index + count)) 0) as [E2|E2].
-    + rewrite E2. cbn [down_iter err size cap nalloc csize nctor ndtor cells set_size].
-      repeat apply conj; try lia; try congruence.
-      intros p; repeat apply conj; intros Hp.
-      * apply Q1. unfold me in *; lia.
-      * rewrite P, P0. unfold me in *. cases.
-      * unfold me in *. destruct (Nat.ltb_spec p (csize s)); [apply Q2; auto|].
-        rewrite Q1 by lia. apply W5; lia.
-    + assert (Eme : me = csize s) by (unfold me in *; lia).
-      destruct (loop2_spec mva smv count Hc (me - (index + count)) me s1) as (G & C' & N' & P').
-      { lia. } { lia. } { intros p Hp. apply Q2. lia. }
-      set (s2 := down_iter _ _ _ s1) in *. destruct G as (G1 & G2 & G3 & G4 & G5).
-      cbn [err size cap nalloc csize nctor ndtor cells set_size].
-      repeat apply conj; try lia; try congruence.
-      intros p; repeat apply conj; intros Hp.
-      * destruct (P' p) as (_ & _ & P3). rewrite P3 by lia. apply Q1. lia.
-      * destruct (P' p) as (P1' & _ & P3).
-        destruct (Nat.ltb_spec p me).
-        -- rewrite P1' by lia. rewrite Q1 by lia. reflexivity.
-        -- rewrite P3 by lia. rewrite P, P0. cases.
-      * destruct (P' p) as (_ & P2' & P3).
-        destruct (Nat.ltb_spec p (csize s)); [apply P2', Q2; auto|].
-        rewrite P3 by lia. rewrite Q1 by lia. apply W5; lia.
+  destruct (Nat.ltb_spec (size s) count).
+  - destruct (fill_spec (repeat v (count - size s)) (size s) (Nat.min (csize s) count) s0) as (F & C2 & N2 & P2).
+    { rewrite repeat_length. lia. }
+    { rewrite repeat_length. intros p Hp. destruct (Nat.ltb_spec p (Nat.min (csize s) count)).
+      - apply V4; lia. - apply V5; lia. }
+    set (s2 := fill _ _ _ s0) in *. destruct F as (F1 & F2 & F3 & F4 & F5). rewrite repeat_length in *.
+    assert (BAL : nctor s2 = ndtor s2 + csize s2) by (rewrite N2, C2, F5, V6; ring).
+    assert (CS : csize s2 = Nat.max (csize s) count).
+    { rewrite C2, C0. replace (size s + (count - size s)) with count by lia.
+      destruct (Nat.le_ge_cases count (csize s)).
+      - rewrite (Nat.min_r (csize s)), Nat.min_id, (Nat.max_r (size s)), (Nat.max_l (csize s)) by lia. lia.
+      - rewrite (Nat.min_l (csize s)), (Nat.min_l (csize s)), (Nat.max_r (size s)), (Nat.max_r (csize s)) by lia. lia. }
+    replace (size s + (count - size s)) with count in P2 by lia.
+    clearbody s2. clear C2 N2.
+    unfold opost. cbn [size csize cap err nctor ndtor nalloc cells set_size].
+    repeat apply conj; try lia.
+    + constructor; cbn [size csize cap err nctor ndtor nalloc cells set_size]; try lia; try congruence.
+      * intros j Hj. rewrite P2. destruct (Nat.lt_ge_cases j (size s)); [rewrite inr_false by lia; apply V4; lia|].
+        destruct (Nat.lt_ge_cases j count); [rewrite inr_true by lia; auto|].
+        rewrite inr_false by lia; apply V4; lia.
+      * intros j Hj. rewrite P2. rewrite inr_false by lia. apply V5; lia.
+    + apply abs_eq_spec; cbn [size csize cap err nctor ndtor nalloc cells set_size].
+      { rewrite app_length, firstn_length, repeat_length, abs_length. lia. }
+      intros j Hj. rewrite P2. rewrite firstn_all2 by (rewrite abs_length; lia).
+      destruct (Nat.lt_ge_cases j (size s)).
+      * rewrite inr_false by lia. rewrite app_nth1 by (rewrite abs_length; lia). rewrite nth_abs by lia.
+        rewrite P0. reflexivity.
+      * rewrite inr_true by lia. rewrite app_nth2 by (rewrite abs_length; lia). rewrite abs_length.
+        rewrite !nth_repeat_lt by lia. reflexivity.
+  - replace (count - size s) with 0 by lia. simpl repeat. rewrite app_nil_r.
+    unfold opost. cbn [size csize cap err nctor ndtor nalloc cells set_size].
+    repeat apply conj; try lia.
+    + constructor; cbn [size csize cap err nctor ndtor nalloc cells set_size]; auto; lia.
+    + apply abs_eq_spec; cbn [size csize cap err nctor ndtor nalloc cells set_size].
+      { rewrite firstn_length, abs_length. lia. }
+      intros j Hj. rewrite nth_firstn_lt by lia. rewrite nth_abs by lia. rewrite P0. reflexivity.
 Qed.
+
+Lemma clear_post s : wf s -> opost s (clear s) [] 0.
+Proof.
+  intros [W1 W2 W3 W4 W5 W6]. unfold clear. rewrite b_clear_size. unfold opost; cbn.
+  repeat apply conj; try lia; try reflexivity. constructor; cbn; auto; lia.
+Qed.
+
+Lemma pop_back_post s : wf s -> 0 < size s -> opost s (pop_back s) (firstn (length (abs s) - 1) (abs s)) 0.
+Proof.
+  intros [W1 W2 W3 W4 W5 W6] H. unfold pop_back. destruct (size s) as [|n] eqn:E; [lia|].
+  unfold opost; cbn [size csize cap err nctor ndtor nalloc cells set_size].
+  repeat apply conj; try lia.
+  - constructor; cbn; auto; lia.
+  - apply abs_eq_spec; cbn [size csize cap err nctor ndtor nalloc cells set_size].
+    { rewrite firstn_length, abs_length. lia. }
+    intros j Hj. rewrite abs_length, E. rewrite nth_firstn_lt by lia. rewrite nth_abs by lia. reflexivity.
+Qed.
+
+Lemma set_at_post s i v : wf s -> i < size s ->
+  opost s (assign s i v) (firstn i (abs s) ++ v :: skipn (S i) (abs s)) 0.
+Proof.
+  intros [W1 W2 W3 W4 W5 W6] H. rewrite assign_ok by (try apply W4; lia).
+  unfold opost; cbn [size csize cap err nctor ndtor nalloc cells put].
+  repeat apply conj; try lia.
+  - constructor; cbn [size csize cap err nctor ndtor nalloc cells put]; auto; try lia.
+    + intros j Hj. unfold setc. destruct (Nat.eqb_spec j i); auto.
+    + intros j Hj. unfold setc. destruct (Nat.eqb_spec j i); auto. lia.
+  - apply abs_eq_spec; cbn [size csize cap err nctor ndtor nalloc cells put].
+    { change (v :: skipn (S i) (abs s)) with ([v] ++ skipn (S i) (abs s)).
+      rewrite length_splice, abs_length by (rewrite abs_length; lia). simpl. lia. }
+    intros j Hj. change (v :: skipn (S i) (abs s)) with ([v] ++ skipn (S i) (abs s)).
+    rewrite nth_splice by (rewrite abs_length; lia). simpl length. unfold setc.
+    destruct (Nat.lt_ge_cases j i).
+    { rewrite ltb_true by lia. destruct (Nat.eqb_spec j i); [lia|]. rewrite nth_abs by lia. reflexivity. }
+    rewrite (ltb_false j i) by lia. destruct (Nat.eqb_spec j i).
+    { subst. rewrite ltb_true by lia. rewrite Nat.sub_diag. reflexivity. }
+    rewrite ltb_false by lia. rewrite nth_abs by lia. simpl. f_equal. f_equal. lia.
+Qed.
+
+Lemma push_all_post : forall vs s, wf s ->
+  let s' := fold_left emplace_back vs s in
+  wf s' /\ abs s' = abs s ++ vs /\ cap s <= cap s' /\ csize s <= csize s' /\ size s' = size s + length vs /\
+  (size s + length vs <= cap s -> nalloc s' = nalloc s /\ cap s' = cap s).
+Proof.
+  induction vs as [|v t IH]; intros s W; simpl.
+  - rewrite app_nil_r. repeat apply conj; auto; lia.
+  - destruct (emplace_back_post s v W) as (W1 & A1 & K1 & C1 & D1 & S1 & N1).
+    destruct (IH _ W1) as (W2 & A2 & K2 & C2 & S2 & N2).
+    assert (SZ : size (emplace_back s v) = S (size s)).
+    { rewrite <- (abs_length (emplace_back s v)), A1, app_length, abs_length. simpl. lia. }
+    repeat apply conj; auto; try lia.
+    rewrite A2, A1, <- app_assoc. reflexivity.
+Qed.
+
+Lemma assign_range_post s vs : wf s -> opost s (assign_range s vs) vs (length vs).
+Proof.
+  intros W. unfold assign_range.
+  destruct (clear_post s W) as (W1 & A1 & K1 & C1 & _ & S1 & N1).
+  destruct (reserve_post (clear s) (length vs) W1) as (W2 & A2 & K2 & C2 & D2 & S2 & N2).
+  destruct (push_all_post vs _ W2) as (W3 & A3 & K3 & C3 & S3 & N3).
+  assert (Z0 : size (reserve (clear s) (length vs)) = 0).
+  { rewrite <- abs_length, A2, A1. reflexivity. }
+  unfold opost. repeat apply conj; auto; try lia.
+  rewrite A3, A2, A1. reflexivity.
+Qed.
+
+(* ---- one step ------------------------------------------------------------------------------------------- *)
+Lemma step_post s o : wf s -> okb (size s) o = true -> (zero_insert o = true -> smv_id) ->
+  opost s (step s o) (spec_step (abs s) o) (demand (size s) o).
+Proof.
+  intros W Hok Hz. unfold RVModel.step. rewrite Hok. cbn [negb].
+  destruct o; cbn [okb spec_step demand zero_insert] in *.
+  - apply emplace_back_post; auto.
+  - apply pop_back_post; auto. apply Nat.ltb_lt; auto.
+  - apply emplace_post; auto. apply Nat.leb_le; auto.
+  - pose proof (insert_range_post mva mvc smv s i (repeat v n) ins_fill_end W) as H.
+    rewrite repeat_length in H. apply H. + apply Nat.leb_le; auto.
+    + destruct n; [right; auto | left; simpl; congruence].
+    + apply b_ins_fill_end.
+  - apply insert_range_post; auto. + apply Nat.leb_le; auto.
+    + destruct vs; [right; auto | left; congruence].
+    + apply b_insr_fill_end.
+  - apply andb_prop in Hok. destruct Hok as [H1 H2]. apply erase_post; auto; apply Nat.leb_le; auto.
+  - apply resize_post; auto. + apply b_resize_grow. + apply b_resize_rend.
+  - apply resize_post; auto. + apply b_resizev_grow. + apply b_resizev_rend.
+  - apply reserve_post; auto.
+  - apply clear_post; auto.
+  - pose proof (assign_range_post s (repeat v n) W) as H. rewrite repeat_length in H. exact H.
+  - apply assign_range_post; auto.
+  - destruct (clear_post s W) as (W1 & A1 & K1 & C1 & _ & S1 & N1).
+    pose proof (resize_post (clear s) n dflt resize_grow_cond resize_recon_end W1 b_resize_grow b_resize_rend) as R.
+    rewrite A1 in R. simpl in R. rewrite Nat.sub_0_r in R. replace (firstn n []) with (@nil Z) in R by (destruct n; reflexivity).
+    destruct R as (W2 & A2 & K2 & C2 & D2 & S2 & N2).
+    unfold opost. repeat apply conj; auto; try lia.
+  - apply set_at_post; auto. apply Nat.ltb_lt; auto.
+Qed.
+
+(* ---- runs ------------------------------------------------------------------------------------------------ *)
+Definition zero_ok (ops : list op) : Prop := smv_id \/ forallb (fun o => negb (zero_insert o)) ops = true.
+
+Lemma zero_ok_cons o t : zero_ok (o :: t) -> (zero_insert o = true -> smv_id) /\ zero_ok t.
+Proof.
+  intros [H|H]; [split; auto; left; auto|]. simpl in H. apply andb_prop in H. destruct H as [H1 H2].
+  split; [|right; auto]. intros E. rewrite E in H1. discriminate.
+Qed.
+
+Lemma run_post : forall ops s, wf s -> valid (abs s) ops = true -> zero_ok ops ->
+  wf (run s ops) /\ abs (run s ops) = fold_left spec_step ops (abs s) /\
+  cap s <= cap (run s ops) /\ csize s <= csize (run s ops) /\ peak (abs s) ops <= cap (run s ops) /\
+  (peak (abs s) ops <= cap s -> nalloc (run s ops) = nalloc s /\ cap (run s ops) = cap s).
+Proof.
+  induction ops as [|o t IH]; intros s W V Z; cbn [RVModel.run fold_left valid peak] in *.
+  - repeat apply conj; auto; lia.
+  - apply andb_prop in V. destruct V as [V1 V2]. rewrite abs_length in *.
+    destruct (zero_ok_cons _ _ Z) as [Z1 Z2].
+    destruct (step_post s o W V1 Z1) as (W1 & A1 & K1 & C1 & D1 & S1 & N1).
+    rewrite <- A1 in *. destruct (IH _ W1 V2 Z2) as (W2 & A2 & K2 & C2 & D2 & N2).
+    fold (run (step s o) t) in *.
+    repeat apply conj; auto; try lia.
+Qed.
+
+(* ---- two vectors --------------------------------------------------------------------------------------------- *)
+Notation step2 := (RVModel.step2 mva mvc smv).
+Notation run2 := (RVModel.run2 mva mvc smv).
+Definition wf2 (p : vec * vec) : Prop := wf (fst p) /\ wf (snd p).
+Definition abs2 (p : vec * vec) : list Z * list Z := (abs (fst p), abs (snd p)).
+Definition zero_ok2 (ops : list op2) : Prop := smv_id \/ forallb (fun o => negb (zero_insert2 o)) ops = true.
+
+Lemma step2_post p o : wf2 p -> ok2 (abs2 p) o = true -> (zero_insert2 o = true -> smv_id) ->
+  wf2 (step2 p o) /\ abs2 (step2 p o) = spec_step2 (abs2 p) o.
+Proof.
+  destruct p as [a b]. intros [Wa Wb] Hok Hz. unfold abs2, wf2 in *. cbn [fst snd] in *.
+  destruct o; cbn [RVModel.step2 spec_step2 ok2 zero_insert2 fst snd] in *.
+  - rewrite abs_length in Hok. destruct (step_post a o Wa Hok Hz) as (W1 & A1 & _). rewrite A1. auto.
+  - rewrite abs_length in Hok. destruct (step_post b o Wb Hok Hz) as (W1 & A1 & _). rewrite A1. auto.
+  - auto.
+  - destruct (assign_range_post a (abs b) Wa) as (W1 & A1 & _). rewrite A1. auto.
+  - destruct (assign_range_post b (abs a) Wb) as (W1 & A1 & _). rewrite A1. auto.
+  - destruct (clear_post a Wa) as (W1 & A1 & _). rewrite A1. auto.
+  - destruct (clear_post b Wb) as (W1 & A1 & _). rewrite A1. auto.
+Qed.
+
+Lemma run2_post : forall ops p, wf2 p -> valid2 (abs2 p) ops = true -> zero_ok2 ops ->
+  wf2 (run2 p ops) /\ abs2 (run2 p ops) = fold_left spec_step2 ops (abs2 p).
+Proof.
+  induction ops as [|o t IH]; intros p W V Z; cbn [RVModel.run2 fold_left valid2] in *; auto.
+  apply andb_prop in V. destruct V as [V1 V2].
+  assert (Z1 : (zero_insert2 o = true -> smv_id) /\ zero_ok2 t).
+  { destruct Z as [H|H]; [split; auto; left; auto|]. simpl in H. apply andb_prop in H. destruct H as [H1 H2].
+    split; [|right; auto]. intros E. rewrite E in H1. discriminate. }
+  destruct Z1 as [Z1 Z2]. destruct (step2_post p o W V1 Z1) as (W1 & A1).
+  rewrite <- A1 in *. apply IH; auto.
+Qed.
+
+(* ---- clear ---------------------------------------------------------------------------------------------------- *)
+Lemma clear_keeps s : wf s ->
+  wf (clear s) /\ abs (clear s) = [] /\ size (clear s) = 0 /\ cap (clear s) = cap s /\ csize (clear s) = csize s /\
+  nalloc (clear s) = nalloc s /\ nctor (clear s) = nctor s /\ ndtor (clear s) = ndtor s /\
+  forall j, cells (clear s) j = cells s j.
+Proof.
+  intros W. destruct (clear_post s W) as (W1 & A1 & _). unfold clear in *. rewrite b_clear_size in *.
+  cbn in *. repeat apply conj; auto.
+Qed.
+
+(* ---- destructor: constructor / destructor balance ------------------------------------------------------------------- *)
+Lemma destroy_loop : forall k i s, i + k <= cap s -> (forall p, i <= p < i + k -> isCon (cells s p)) ->
+  let s' := up_iter k i destroy s in
+  err s' = err s /\ nctor s' = nctor s /\ ndtor s' = ndtor s + k /\
+  forall p, cells s' p = if (i <=? p) && (p <? i + k) then Raw else cells s p.
+Proof.
+  induction k as [|k IH]; intros i s Hcap Hcon; cbn [up_iter].
+  - repeat apply conj; auto. intros p. rewrite inr_false by lia. reflexivity.
+  - rewrite destroy_ok by (try apply Hcon; lia).
+    destruct (IH (S i) (put s i Raw 0 1)) as (E & N & D & P).
+    + cbn; lia.
+    + intros p Hp. cbn. unfold setc. destruct (Nat.eqb_spec p i); [lia|]. apply Hcon; lia.
+    + cbn [err nctor ndtor cells put cap size csize nalloc] in *. repeat apply conj; auto; try lia. intros p. rewrite P. unfold setc.
+      destruct (Nat.lt_ge_cases p i); [rewrite !inr_false by lia; destruct (Nat.eqb_spec p i); auto; lia|].
+      destruct (Nat.eq_dec p i) as [->|Hne].
+      * rewrite inr_false, inr_true by lia. rewrite Nat.eqb_refl. reflexivity.
+      * destruct (Nat.lt_ge_cases p (i + S k)).
+        -- rewrite !inr_true by lia. reflexivity.
+        -- rewrite !inr_false by lia. destruct (Nat.eqb_spec p i); auto; lia.
+Qed.
+
+Lemma destroy_all_balance s : wf s ->
+  err (destroy_all s) = false /\ nctor (destroy_all s) = ndtor (destroy_all s) /\
+  forall j, cells (destroy_all s) j = Raw.
+Proof.
+  intros [W1 W2 W3 W4 W5 W6]. unfold destroy_all.
+  destruct (destroy_loop (csize s) 0 s) as (E & N & D & P); [lia | intros; apply W4; lia |].
+  repeat apply conj; try congruence; try lia.
+  intros j. rewrite P. destruct (Nat.lt_ge_cases j (csize s)).
+  - rewrite inr_true by lia. reflexivity. - rewrite inr_false by lia. apply W5; lia.
+Qed.
+
+Lemma wf_empty : wf empty_vec.
+Proof. constructor; cbn; auto; intros; lia. Qed.
+
+(* ---- manager ---------------------------------------------------------------------------------------------------- *)
+Notation mcycle := (RVModel.mcycle mva mvc smv).
+
+Lemma from_meta_post m : wf (from_meta m) /\ abs (from_meta m) = [] /\ size (from_meta m) = 0 /\
+  cap (from_meta m) = m /\ csize (from_meta m) = m.
+Proof.
+  unfold from_meta. rewrite b_meta_csize, b_meta_cap. repeat apply conj; try reflexivity.
+  constructor; cbn [size csize cap cells err nctor ndtor nalloc]; try lia.
+  - apply Bool.negb_false_iff, Nat.leb_le; lia.
+  - intros j Hj. rewrite ltb_true by lia. auto.
+  - intros j Hj. rewrite ltb_false by lia. auto.
+Qed.
+
+Lemma mcycle_post g ops : wf (inst g) -> valid (abs (inst g)) ops = true -> zero_ok ops ->
+  let w := run (inst g) ops in let g' := mcycle g ops in
+  wf (inst g') /\ abs (inst g') = [] /\ csize w <= csize (inst g') /\ csize w <= cap (inst g') /\
+  meta g <= meta g' /\ interval g' = interval g /\
+  ((S (times g) < interval g /\ recreated g' = recreated g /\ times g' = S (times g) /\ meta g' = meta g /\
+    cap (inst g') = cap w /\ csize (inst g') = csize w /\ nalloc (inst g') = nalloc w /\
+    (forall j, cells (inst g') j = cells w j))
+   \/
+   (interval g <= S (times g) /\ recreated g' = S (recreated g) /\ times g' = 0 /\
+    meta g' = Nat.max (csize w) (meta g) /\ cap (inst g') = meta g' /\ csize (inst g') = meta g')).
+Proof.
+  intros W V Z. destruct (run_post ops (inst g) W V Z) as (W1 & _). cbn zeta.
+  unfold RVModel.mcycle, mclear. cbn [inst meta times interval recreated]. rewrite b_mgr_recreate.
+  fold (run (inst g) ops). set (w := run (inst g) ops) in *.
+  destruct (Nat.leb_spec (interval g) (S (times g))); cbn [inst meta times interval recreated].
+  - unfold update_meta. rewrite b_meta_update.
+    destruct (from_meta_post (Nat.max (csize w) (meta g))) as (F1 & F2 & F3 & F4 & F5).
+    repeat apply conj; auto; try lia; try (right; repeat apply conj; auto; lia).
+  - destruct (clear_keeps w W1) as (C1 & C2 & C3 & C4 & C5 & C6 & C7 & C8 & C9).
+    assert (csize w <= cap w) by (destruct W1; auto).
+    repeat apply conj; auto; try lia; try (left; repeat apply conj; auto; lia).
+Qed.
+
+(* ---- convergence: a workload that fits takes nothing from the resource ------------------------------------------------- *)
+Definition is_reserve (o : op) : bool := match o with Reserve _ => true | _ => false end.
+Definition reserve_free (ops : list op) : bool := forallb (fun o => negb (is_reserve o)) ops.
+
+Lemma demand_le_len (l : list Z) o : is_reserve o = false -> okb (length l) o = true ->
+  demand (length l) o <= length (spec_step l o).
+Proof.
+  intros R Hok. destruct o; cbn [demand spec_step okb is_reserve] in *; try discriminate; try lia;
+  repeat (rewrite ?app_length, ?firstn_length, ?skipn_length, ?repeat_length; cbn [length]); try lia.
+  all: try (apply Nat.leb_le in Hok; lia).
+Qed.
+
+Lemma peak_le_csize : forall ops s, reserve_free ops = true -> wf s -> valid (abs s) ops = true -> zero_ok ops ->
+  peak (abs s) ops <= csize (run s ops).
+Proof.
+  induction ops as [|o t IH]; intros s R W V Z; cbn [RVModel.run fold_left valid peak reserve_free forallb] in *; [lia|].
+  apply andb_prop in V. destruct V as [V1 V2]. apply andb_prop in R. destruct R as [R1 R2].
+  apply Bool.negb_true_iff in R1.
+  destruct (zero_ok_cons _ _ Z) as [Z1 Z2].
+  pose proof (demand_le_len (abs s) o R1 V1) as D.
+  rewrite abs_length in V1.
+  destruct (step_post s o W V1 Z1) as (W1 & A1 & K1 & C1 & D1 & S1 & N1).
+  rewrite <- A1 in *. fold (run (step s o) t).
+  specialize (IH _ R2 W1 V2 Z2).
+  destruct (run_post t _ W1 V2 Z2) as (_ & _ & _ & C2 & _).
+  rewrite !abs_length in *. assert (size (step s o) <= csize (step s o)) by (destruct W1; auto).
+  lia.
+Qed.
+
+Lemma converged_no_growth g ops : wf (inst g) -> abs (inst g) = [] -> valid [] ops = true -> zero_ok ops ->
+  let g1 := mcycle g ops in
+  (recreated g1 = recreated g \/ reserve_free ops = true) ->
+  nalloc (run (inst g1) ops) = nalloc (inst g1) /\ cap (run (inst g1) ops) = cap (inst g1).
+Proof.
+  intros W A V Z. cbn zeta. intros H.
+  assert (V0 : valid (abs (inst g)) ops = true) by (rewrite A; auto).
+  destruct (mcycle_post g ops W V0 Z) as (W1 & A1 & C1 & K1 & M1 & I1 & D).
+  destruct (run_post ops (inst g) W V0 Z) as (Wr & _ & _ & _ & Pk & _). rewrite A in Pk.
+  assert (V1 : valid (abs (inst (mcycle g ops))) ops = true) by (rewrite A1; auto).
+  destruct (run_post ops _ W1 V1 Z) as (_ & _ & _ & _ & _ & N). rewrite A1 in N. apply N.
+  destruct D as [(D1 & D2 & D3 & D4 & D5 & _) | (D1 & D2 & D3 & D4 & D5 & D6)].
+  - lia.
+  - destruct H as [H|H]; [lia|].
+    pose proof (peak_le_csize ops (inst g) H W V0 Z) as Pc. rewrite A in Pc. lia.
+Qed.
+
 End Elem.
+
+(* ---- the zero-length insert: refinement fails when the element's self-move-assignment is destructive -------------------- *)
+Lemma zero_insert_refuted : exists (smv : Z -> Z) (ops : list op),
+  valid [] ops = true /\
+  abs (run (fun _ _ => 0%Z) (fun _ => 0%Z) smv empty_vec ops) <> fold_left spec_step ops [].
+Proof.
+  exists (fun _ => 0%Z), [AssignRange [1; 2; 3]%Z; InsertN 1 0 9%Z]. split; [reflexivity|].
+  vm_compute. discriminate.
+Qed.
+
+Lemma window_example :
+  let s := run (fun s _ => s) (fun v => v) (fun v => v) empty_vec [AssignRange [1;2;3;4;5]%Z; Erase 2 5; InsertN 1 2 9%Z] in
+  (size s, csize s, cap s, abs s, stale s, err s) = (4, 5, 5, [1; 9; 9; 2]%Z, [3]%Z, false).
+Proof. vm_compute. reflexivity. Qed.
+
+(* ---- the statements exported to Properties_C12.v ---------------------------------------------------------------------------- *)
+Section Export.
+Variable mva : Z -> Z -> Z.
+Variable mvc : Z -> Z.
+Variable smv : Z -> Z.
+Notation run := (RVModel.run mva mvc smv).
+Notation run2 := (RVModel.run2 mva mvc smv).
+Notation mcycle := (RVModel.mcycle mva mvc smv).
+
+Lemma rv_refines_list ops s : wf s -> valid (abs s) ops = true ->
+  ((forall v, smv v = v) \/ forallb (fun o => negb (zero_insert o)) ops = true) ->
+  abs (run s ops) = fold_left spec_step ops (abs s).
+Proof. intros W V Z. apply (run_post mva mvc smv ops s W V Z). Qed.
+
+Lemma rv_refines_list2 ops a b : wf a -> wf b -> valid2 (abs a, abs b) ops = true ->
+  ((forall v, smv v = v) \/ forallb (fun o => negb (zero_insert2 o)) ops = true) ->
+  (abs (fst (run2 (a, b) ops)), abs (snd (run2 (a, b) ops))) = fold_left spec_step2 ops (abs a, abs b).
+Proof. intros Wa Wb V Z. apply (run2_post mva mvc smv ops (a, b) (conj Wa Wb) V Z). Qed.
+
+Lemma rv_inv ops s : wf s -> valid (abs s) ops = true ->
+  ((forall v, smv v = v) \/ forallb (fun o => negb (zero_insert o)) ops = true) ->
+  let s' := run s ops in
+  size s' <= csize s' /\ csize s' <= cap s' /\ err s' = false /\
+  (forall j, j < csize s' -> exists v, cells s' j = Con v) /\ (forall j, csize s' <= j -> cells s' j = Raw) /\
+  nctor s' = ndtor s' + csize s'.
+Proof. intros W V Z. destruct (run_post mva mvc smv ops s W V Z) as ([W1 W2 W3 W4 W5 W6] & _). cbn zeta. auto 10. Qed.
+
+Lemma rv_inv2 ops a b : wf a -> wf b -> valid2 (abs a, abs b) ops = true ->
+  ((forall v, smv v = v) \/ forallb (fun o => negb (zero_insert2 o)) ops = true) ->
+  wf (fst (run2 (a, b) ops)) /\ wf (snd (run2 (a, b) ops)).
+Proof. intros Wa Wb V Z. apply (run2_post mva mvc smv ops (a, b) (conj Wa Wb) V Z). Qed.
+
+Lemma rv_capacity_never_shrinks ops s : wf s -> valid (abs s) ops = true ->
+  ((forall v, smv v = v) \/ forallb (fun o => negb (zero_insert o)) ops = true) ->
+  cap s <= cap (run s ops) /\ csize s <= csize (run s ops).
+Proof. intros W V Z. destruct (run_post mva mvc smv ops s W V Z) as (_ & _ & K & C & _). auto. Qed.
+
+Lemma rv_ctor_dtor_balance ops s : wf s -> valid (abs s) ops = true ->
+  ((forall v, smv v = v) \/ forallb (fun o => negb (zero_insert o)) ops = true) ->
+  let d := destroy_all (run s ops) in err d = false /\ nctor d = ndtor d /\ forall j, cells d j = Raw.
+Proof. intros W V Z. destruct (run_post mva mvc smv ops s W V Z) as (W1 & _). apply destroy_all_balance; auto. Qed.
+
+Lemma rv_fits_no_alloc ops s : wf s -> valid (abs s) ops = true ->
+  ((forall v, smv v = v) \/ forallb (fun o => negb (zero_insert o)) ops = true) ->
+  peak (abs s) ops <= cap s -> nalloc (run s ops) = nalloc s /\ cap (run s ops) = cap s.
+Proof. intros W V Z. apply (run_post mva mvc smv ops s W V Z). Qed.
+
+Lemma rv_peak_le_cap ops s : wf s -> valid (abs s) ops = true ->
+  ((forall v, smv v = v) \/ forallb (fun o => negb (zero_insert o)) ops = true) ->
+  peak (abs s) ops <= cap (run s ops).
+Proof. intros W V Z. apply (run_post mva mvc smv ops s W V Z). Qed.
+End Export.
